@@ -59,7 +59,7 @@ class WrapHarness(Harness):
 
     def gen_text(self, I, cfg):
         g = cfg.get('gen', 'sym1')
-        n = cfg['n']
+        n = cfg.get('n', 0)
         if g == 'sym1':
             return gen_text(I, n, 'c', (1,), lenvar=cfg.get('lenvar', True))
         if g == 'sym1x':      # 1-byte, no ESC (ESC only inside well-formed tokens)
@@ -70,6 +70,23 @@ class WrapHarness(Harness):
         if g == 'symallx':
             return gen_text(I, n, 'c', (1, 2, 3, 4), exclude=(ESC,), lenvar=cfg.get('lenvar', True),
                             tokens=cfg.get('tokens', ()))
+        if g == 'words':
+            # structured text: nwords words of 1..wl symbolic non-space characters separated by runs of 1..maxgap
+            # spaces (optionally leading / trailing runs): reaches multi-word shapes beyond the flat N bound
+            chars = []
+            nw = cfg.get('nwords', 3)
+            wl = cfg.get('wl', 1)
+            mg = cfg.get('maxgap', 2)
+            if cfg.get('lead'):
+                chars += [(32, 1)] * I.choose(mg + 1, 'lead')
+            for k in range(nw):
+                if k:
+                    chars += [(32, 1)] * (1 + I.choose(mg, 'gap'))
+                for j in range(1 + I.choose(wl, 'wlen')):
+                    chars.append((I.sym_char('w%d_%d' % (k, j), 0, 0x7f, exclude=(32, 10, 13, ESC)), 1))
+            if cfg.get('trail'):
+                chars += [(32, 1)] * I.choose(mg + 1, 'trail')
+            return Txt(chars)
         if g == 'symcls':
             return gen_text(I, n, 'c', tuple(cfg['classes']), lenvar=cfg.get('lenvar', True))
         if g == 'alpha':
